@@ -97,6 +97,8 @@ type valPayload struct {
 	Bad      bool   `json:"bad"`
 	Accept   bool   `json:"accept"`
 	Dec2OK   bool   `json:"dec2ok"`
+	Dec2Pos  int    `json:"dec2consumed"`
+	Dec2Re   []int  `json:"dec2re"`
 	Writable bool   `json:"writable"`
 	Req      []int  `json:"req"`
 	Res1     []int  `json:"res1"`
@@ -304,6 +306,41 @@ func runCorpusTL1(c *core.Ctx, prop string, cp Corpus, k, kmut, kjson, kre, kmut
 				nVal++
 			case "bytes", "bytes2":
 				nBytes++
+			}
+			return
+		}
+		if p.Kind == "bytes2" {
+			// C11: the TL2 readers accept exactly the byte strings the reference reader (Dec2) accepts,
+			// consume as much, and hold the value the reference decodes (compared through its encoding)
+			nBytes++
+			r, err := b.script(p.Tn, nBytes%2 == 0 && cp.BytesVers != "", map[string]any{"op": "read2", "in": p.B})
+			if err != nil {
+				firstErr = err
+				return
+			}
+			s := r.Steps[0]
+			c.Add("evaluations", 1)
+			c.Add("tl2_byte_strings", 1)
+			bad := ""
+			switch {
+			case s.Panic != "":
+				bad = "panic: " + s.Panic
+			case p.Dec2OK && s.Err != "":
+				bad = "reference accepts, implementation rejects: " + s.Err
+			case !p.Dec2OK && s.Err == "":
+				bad = fmt.Sprintf("reference rejects, implementation accepts (consumed %d, rewrites %s)", s.Consumed, hexs(s.Dump.TL2))
+			case p.Dec2OK && s.Consumed != p.Dec2Pos:
+				bad = fmt.Sprintf("consumed %d, reference %d", s.Consumed, p.Dec2Pos)
+			case p.Dec2OK && s.Dump != nil && !eqInts(s.Dump.TL2, p.Dec2Re):
+				bad = fmt.Sprintf("decoded value re-encodes to %s, reference %s", hexs(s.Dump.TL2), hexs(p.Dec2Re))
+			}
+			if s.Err == "" {
+				acc++
+			} else {
+				rej++
+			}
+			if bad != "" && classOf[prop]["tl2"] {
+				c.Violate(fmt.Sprintf("tl2-bytes/%s/%s/read2/%s", cp.Name, p.Tn, hexs(p.B)), fmt.Sprintf("type %s, read2 of %s: %s", p.Tn, hexs(p.B), bad), map[string]any{"corpus": cp, "payload": p})
 			}
 			return
 		}
